@@ -158,9 +158,12 @@ class SNum:
         return self
 
     def __round__(self, ndigits=None):
-        if ndigits is not None:
+        if ndigits is None:
+            return wrap(round_half_even(self.e))
+        if not isinstance(ndigits, int) or not 0 <= ndigits <= 12:
             raise SymbolicEscape("round(x, ndigits) of a symbolic number")
-        return wrap(round_half_even(self.e))
+        scale = 10 ** ndigits
+        return wrap(z3.ToReal(round_half_even(term(self) * scale)) / scale)
 
     def __floor__(self):
         return wrap(z3.ToInt(term(self)))
@@ -492,17 +495,96 @@ def obj_vdot(a, b):
     return tot
 
 
+def _has_sym(*xs):
+    for x in xs:
+        if isinstance(x, (SNum, SBool)):
+            return True
+        if isinstance(x, np.ndarray) and x.dtype == object:
+            return True
+    return False
+
+
+def sym_isclose(a, b, rtol=1e-05, atol=1e-08, equal_nan=False):
+    if not _has_sym(a, b):
+        return np.isclose(a, b, rtol=rtol, atol=atol, equal_nan=equal_nan)
+
+    def one(x, y):
+        return abs(x - y) <= atol + rtol * abs(y)
+    if isinstance(a, np.ndarray) or isinstance(b, np.ndarray):
+        return np.frompyfunc(one, 2, 1)(a, b)
+    return one(a, b)
+
+
+def sym_allclose(a, b, rtol=1e-05, atol=1e-08, equal_nan=False):
+    r = sym_isclose(a, b, rtol, atol, equal_nan)
+    if isinstance(r, np.ndarray):
+        return all(bool(x) for x in r.ravel().tolist())
+    return bool(r)
+
+
+def sym_math_isclose(a, b, *, rel_tol=1e-09, abs_tol=0.0):
+    if not _has_sym(a, b):
+        return math.isclose(a, b, rel_tol=rel_tol, abs_tol=abs_tol)
+    d = abs(a - b)
+    return bool(d <= rel_tol * abs(a)) or bool(d <= rel_tol * abs(b)) or bool(d <= abs_tol)
+
+
+def sym_np_round(a, decimals=0, out=None):
+    if not _has_sym(a):
+        return np.round(a, decimals)
+    if decimals != 0:
+        raise SymbolicEscape("numpy round with decimals on symbolic values")
+    if isinstance(a, np.ndarray):
+        return np.frompyfunc(lambda x: round(x) if isinstance(x, SNum) else float(round(x)), 1, 1)(a)
+    return round(a)
+
+
+_builtin_float = float
+
+
+class _SymFloatMeta(type):
+    def __instancecheck__(cls, obj):
+        return isinstance(obj, (_builtin_float, SNum))
+
+
+class sym_float(metaclass=_SymFloatMeta):
+    """stands for `float` inside corankco modules: float(x) keeps symbolic reals symbolic, isinstance(x, float) accepts them"""
+    def __new__(cls, x=0.0):
+        if isinstance(x, SNum):
+            return x
+        return _builtin_float(x)
+
+
+def _shim_table():
+    return {id(np.zeros): (obj_zeros, "object-dtype zeros for float arrays"),
+            id(np.isclose): (sym_isclose, "|a-b| <= atol + rtol*|b| on symbolic reals"),
+            id(np.allclose): (sym_allclose, "allclose via isclose"),
+            id(np.round): (sym_np_round, "round half even on symbolic reals"),
+            id(math.isnan): (sym_isnan, "isnan that is False on symbolic reals"),
+            id(math.isclose): (sym_math_isclose, "math.isclose on symbolic reals")}
+
+
 def install_shims():
-    """rebinding of module globals inside the checking process only; /repo is not edited"""
-    import corankco.algorithms.pairwisebasedalgorithm as P
-    import corankco.algorithms.bioconsert.bioconsert as Bm
-    import corankco.scoringscheme as S
-    P.zeros = obj_zeros
-    Bm.zeros = obj_zeros
-    S.isnan = sym_isnan
-    return {"corankco.algorithms.pairwisebasedalgorithm.zeros": "object-dtype zeros for float arrays",
-            "corankco.algorithms.bioconsert.bioconsert.zeros": "object-dtype zeros for float arrays",
-            "corankco.scoringscheme.isnan": "isnan that is False on symbolic reals"}
+    """rebinding of module globals inside the checking process only; /repo is not edited.  Every corankco module
+    is scanned for names bound to the numpy / math functions of the table and rebound to proxy-aware versions."""
+    import sys, importlib
+    for m in ("corankco", "corankco.algorithms.pairwisebasedalgorithm", "corankco.algorithms.bioconsert.bioconsert",
+              "corankco.scoringscheme", "corankco.kemeny_score_computation", "corankco.partitioning.ordered_partition"):
+        importlib.import_module(m)
+    table = _shim_table()
+    done = {}
+    for mname, mod in list(sys.modules.items()):
+        if not mname.startswith("corankco") or mod is None:
+            continue
+        for name, val in list(vars(mod).items()):
+            hit = table.get(id(val))
+            if hit is not None:
+                setattr(mod, name, hit[0])
+                done[f"{mname}.{name}"] = hit[1]
+        if hasattr(mod, "__file__") and not hasattr(mod, "__path__"):
+            mod.float = sym_float
+    done["corankco.*.float"] = "float(x) keeps symbolic reals symbolic; isinstance(x, float) accepts them"
+    return done
 
 
 # ------------------------------------------------------------------ symbolic scoring scheme
